@@ -18,6 +18,7 @@ package rules
 
 import (
 	"slices"
+	"strings"
 	"sync"
 
 	"github.com/dadrus/heimdall/internal/heimdall"
@@ -59,7 +60,9 @@ func (r *repository) FindRule(ctx heimdall.Context) (rule.Rule, error) {
 	defer r.rulesTreeMutex.RUnlock()
 
 	entry, err := r.index.Find(
-		x.IfThenElse(len(request.URL.RawPath) != 0, request.URL.RawPath, request.URL.Path),
+		x.IfThenElseExec(len(request.URL.RawPath) != 0,
+			func() string { return normalizeUnreserved(request.URL.RawPath) },
+			func() string { return request.URL.Path }),
 		radixtree.LookupMatcherFunc[rule.Route](func(route rule.Route, keys, values []string) bool {
 			return route.Matches(ctx, keys, values)
 		}),
@@ -76,6 +79,55 @@ func (r *repository) FindRule(ctx heimdall.Context) (rule.Rule, error) {
 	request.URL.Captures = entry.Parameters
 
 	return entry.Value.Rule(), nil
+}
+
+// normalizeUnreserved decodes the percent-encoded octets of the given raw path, which correspond to
+// unreserved characters (see RFC 3986, section 6.2.2.2). Such encodings are equivalent to the characters
+// themselves and must not influence which rule matches. All other percent-encodings are left untouched.
+func normalizeUnreserved(rawPath string) string {
+	if !strings.Contains(rawPath, "%") {
+		return rawPath
+	}
+
+	var result strings.Builder
+
+	result.Grow(len(rawPath))
+
+	for i := 0; i < len(rawPath); i++ {
+		if rawPath[i] == '%' && i+2 < len(rawPath) {
+			if hi, lo := unhex(rawPath[i+1]), unhex(rawPath[i+2]); hi >= 0 && lo >= 0 {
+				if octet := byte(hi<<4 | lo); isUnreserved(octet) { //nolint:gosec
+					result.WriteByte(octet)
+
+					i += 2
+
+					continue
+				}
+			}
+		}
+
+		result.WriteByte(rawPath[i])
+	}
+
+	return result.String()
+}
+
+func isUnreserved(c byte) bool {
+	return 'a' <= c && c <= 'z' || 'A' <= c && c <= 'Z' || '0' <= c && c <= '9' ||
+		c == '-' || c == '.' || c == '_' || c == '~'
+}
+
+func unhex(c byte) int {
+	switch {
+	case '0' <= c && c <= '9':
+		return int(c - '0')
+	case 'a' <= c && c <= 'f':
+		return int(c-'a') + 10 //nolint:mnd
+	case 'A' <= c && c <= 'F':
+		return int(c-'A') + 10 //nolint:mnd
+	default:
+		return -1
+	}
 }
 
 func (r *repository) AddRuleSet(_ string, rules []rule.Rule) error {
